@@ -7,6 +7,23 @@
   noop      a `pass` at the start of every function body and loop body
   unparse   whole files re-printed by ast.unparse (quotes, parentheses, line numbers change)
   docs      every docstring replaced, a logging-style no-op call added to every function
+  swapif    `if c: A else: B` -> `if not c: B else: A` for every two-way if without elif
+  lenzero   `len(x) == 0` -> `not x`, `len(x) > 0` / `len(x) != 0` -> truth value of x (in conditions)
+  fstring   `"...%s..%d" % (a, b)` with a literal format -> f-string
+  uncomp    `v = [E for x in it if c]` as a statement -> `v = []` and a loop with append
+  elseret   the `else` after a branch that ends in return / raise / continue / break is removed (its body follows the if)
+  ternary   `x = A; if c: x = B` -> `x = B if c else A` (A a constant / name / attribute, c does not read x)
+  hoistarg  the first call nested in the arguments of a statement-level call gets a temporary of its own
+  keyconst  every literal key of a `.data[...]` access becomes a module-level constant `_K_<key>`
+  kwcall    calls of functions of the same module pass their arguments by keyword
+  mergeif   `if a: if b: S` (no else on either) -> `if a and b: S`
+  splitand  `if a and b: S` (no else) -> `if a: if b: S`
+  whiletrue `while c: body` -> `while True: if not c: break; body` (loops without else)
+  dotformat `"..%s.." % (a, b)` with only %s -> `"..{}..".format(a, b)`
+  listcopy  `for x in xs:` -> `for x in list(xs):` for every loop over a name / attribute / call
+  modalias  every package module is imported under another name (`from . import trees as trees_m`)
+  fromimp   functions / constants of other package modules are imported directly (`from .trees import children`) wherever
+            no scope of the importing module binds the same name
 
 Informational (measures the checker, never decides a property): prints per rewrite the properties whose
 check raised a violation or an analysis error (expected: none).
@@ -143,16 +160,407 @@ class Docs(ast.NodeTransformer):
         return node
 
 
-REWRITES = {'alpha': Alpha, 'flip': Flip, 'notin': NotIn, 'noop': Noop, 'docs': Docs, 'unparse': None}
+PKG_MODULES = ['trees', 'treeinput', 'treeoutput', 'transform', 'transformconst', 'transitions', 'transitionoutput',
+               'treeanalysis', 'grammar', 'grammarconst', 'grammaranalysis', 'grammarinput', 'grammaroutput', 'misc']
+
+
+def _bound_names(tree):
+    out = set()
+    for n in ast.walk(tree):
+        if isinstance(n, ast.Name) and isinstance(n.ctx, (ast.Store, ast.Del)):
+            out.add(n.id)
+        elif isinstance(n, (ast.FunctionDef, ast.ClassDef)):
+            out.add(n.name)
+        elif isinstance(n, ast.arg):
+            out.add(n.arg)
+        elif isinstance(n, ast.ExceptHandler) and n.name:
+            out.add(n.name)
+    return out
+
+
+class ModAlias(ast.NodeTransformer):
+    """from . import trees, misc  ->  from . import trees as trees_m, misc as misc_m  (uses renamed)"""
+
+    def visit_Module(self, node):
+        bound = _bound_names(node)
+        self.ren = {}
+        for st in node.body:
+            if isinstance(st, ast.ImportFrom) and st.level >= 1 and not st.module:
+                for a in st.names:
+                    if a.name in PKG_MODULES and not a.asname and a.name not in bound and a.name + '_m' not in bound:
+                        self.ren[a.name] = a.name + '_m'
+                        a.asname = a.name + '_m'
+        self.generic_visit(node)
+        return node
+
+    def visit_Name(self, node):
+        if isinstance(node.ctx, ast.Load) and node.id in self.ren:
+            return ast.copy_location(ast.Name(id=self.ren[node.id], ctx=ast.Load()), node)
+        return node
+
+
+class FromImp(ast.NodeTransformer):
+    """trees.children(x) -> children(x) with `from .trees import children`, for names nothing in the module binds"""
+
+    def visit_Module(self, node):
+        bound = _bound_names(node)
+        self.mods = set()
+        for st in node.body:
+            if isinstance(st, ast.ImportFrom) and st.level >= 1 and not st.module:
+                self.mods |= set(a.name for a in st.names if a.name in PKG_MODULES and not a.asname and a.name not in bound)
+        self.bound = bound
+        self.used = {}
+        self.generic_visit(node)
+        imports = [ast.ImportFrom(module=m, names=[ast.alias(name=n, asname=None) for n in sorted(ns)], level=1)
+                   for m, ns in sorted(self.used.items())]
+        k = 0
+        while k < len(node.body) and not isinstance(node.body[k], (ast.FunctionDef, ast.ClassDef, ast.Assign)):
+            k += 1
+        node.body = node.body[:k] + imports + node.body[k:]
+        return node
+
+    def visit_Attribute(self, node):
+        self.generic_visit(node)
+        if isinstance(node.ctx, ast.Load) and isinstance(node.value, ast.Name) and node.value.id in self.mods \
+                and node.attr not in self.bound and not node.attr.startswith('_'):
+            # one name must not be imported from two modules
+            for m, ns in self.used.items():
+                if m != node.value.id and node.attr in ns:
+                    return node
+            self.used.setdefault(node.value.id, set()).add(node.attr)
+            return ast.copy_location(ast.Name(id=node.attr, ctx=ast.Load()), node)
+        return node
+
+
+class SwapIf(ast.NodeTransformer):
+    def visit_If(self, node):
+        self.generic_visit(node)
+        if node.orelse and not (len(node.orelse) == 1 and isinstance(node.orelse[0], ast.If)):
+            t = node.test
+            neg = t.operand if isinstance(t, ast.UnaryOp) and isinstance(t.op, ast.Not) else ast.UnaryOp(op=ast.Not(), operand=t)
+            return ast.copy_location(ast.If(test=neg, body=node.orelse, orelse=node.body), node)
+        return node
+
+
+class LenZero(ast.NodeTransformer):
+    def _conv(self, t):
+        if isinstance(t, ast.Compare) and len(t.ops) == 1 and isinstance(t.left, ast.Call) and isinstance(t.left.func, ast.Name) \
+                and t.left.func.id == 'len' and len(t.left.args) == 1 and isinstance(t.comparators[0], ast.Constant) \
+                and t.comparators[0].value == 0:
+            x = t.left.args[0]
+            if isinstance(t.ops[0], ast.Eq):
+                return ast.UnaryOp(op=ast.Not(), operand=x)
+            if isinstance(t.ops[0], (ast.Gt, ast.NotEq)):
+                return x
+        return t
+
+    def visit_If(self, node):
+        self.generic_visit(node)
+        node.test = self._conv(node.test)
+        return node
+
+    def visit_While(self, node):
+        self.generic_visit(node)
+        node.test = self._conv(node.test)
+        return node
+
+    def visit_BoolOp(self, node):
+        self.generic_visit(node)
+        return node
+
+
+class FString(ast.NodeTransformer):
+    def visit_BinOp(self, node):
+        self.generic_visit(node)
+        if not (isinstance(node.op, ast.Mod) and isinstance(node.left, ast.Constant) and isinstance(node.left.value, str)):
+            return node
+        import re
+        fmt = node.left.value
+        specs = re.findall(r'%(%|[sd])', fmt)
+        if re.search(r'%[^sd%]', fmt) or '{' in fmt or '}' in fmt:
+            return node
+        args = list(node.right.elts) if isinstance(node.right, ast.Tuple) else [node.right]
+        if len([x for x in specs if x != '%']) != len(args):
+            return node
+        if any(isinstance(a, (ast.Dict,)) for a in args):
+            return node
+        parts = re.split(r'(%%|%s|%d)', fmt)
+        vals = []
+        it = iter(args)
+        for p_ in parts:
+            if p_ == '%%':
+                vals.append(ast.Constant('%'))
+            elif p_ == '%s':
+                vals.append(ast.FormattedValue(value=next(it), conversion=-1, format_spec=None))
+            elif p_ == '%d':
+                vals.append(ast.FormattedValue(value=next(it), conversion=-1,
+                                               format_spec=ast.JoinedStr(values=[ast.Constant('d')])))
+            elif p_:
+                vals.append(ast.Constant(p_))
+        # adjacent constants are merged by the compiler anyway
+        return ast.copy_location(ast.JoinedStr(values=vals), node)
+
+
+class UnComp(ast.NodeTransformer):
+    def _stmts(self, body):
+        out = []
+        for st in body:
+            if isinstance(st, ast.Assign) and len(st.targets) == 1 and isinstance(st.targets[0], ast.Name) \
+                    and isinstance(st.value, ast.ListComp) and len(st.value.generators) == 1 \
+                    and not st.value.generators[0].is_async \
+                    and st.targets[0].id not in [n.id for n in ast.walk(st.value) if isinstance(n, ast.Name)]:
+                g = st.value.generators[0]
+                v = st.targets[0].id
+                app = ast.Expr(ast.Call(func=ast.Attribute(value=ast.Name(id=v, ctx=ast.Load()), attr='append', ctx=ast.Load()),
+                                        args=[st.value.elt], keywords=[]))
+                inner = [app]
+                for c in reversed(g.ifs):
+                    inner = [ast.If(test=c, body=inner, orelse=[])]
+                out.append(ast.copy_location(ast.Assign(targets=[ast.Name(id=v, ctx=ast.Store())], value=ast.List(elts=[], ctx=ast.Load())), st))
+                out.append(ast.copy_location(ast.For(target=g.target, iter=g.iter, body=inner, orelse=[]), st))
+            else:
+                out.append(st)
+        return out
+
+    def generic_visit(self, node):
+        super().generic_visit(node)
+        for fld in ('body', 'orelse', 'finalbody'):
+            b = getattr(node, fld, None)
+            if isinstance(b, list) and b and isinstance(b[0], ast.stmt):
+                setattr(node, fld, self._stmts(b))
+        return node
+
+
+class ElseRet(ast.NodeTransformer):
+    def _fix(self, body):
+        out = []
+        for st in body:
+            if isinstance(st, ast.If) and st.orelse and st.body and isinstance(st.body[-1], (ast.Return, ast.Raise, ast.Continue, ast.Break)) \
+                    and not (len(st.orelse) == 1 and isinstance(st.orelse[0], ast.If)):
+                rest = st.orelse
+                st.orelse = []
+                out.append(st)
+                out.extend(rest)
+            else:
+                out.append(st)
+        return out
+
+    def generic_visit(self, node):
+        super().generic_visit(node)
+        for fld in ('body', 'orelse', 'finalbody'):
+            b = getattr(node, fld, None)
+            if isinstance(b, list) and b and isinstance(b[0], ast.stmt):
+                setattr(node, fld, self._fix(b))
+        return node
+
+
+class Ternary(ast.NodeTransformer):
+    def _fix(self, body):
+        out = []
+        i = 0
+        while i < len(body):
+            st = body[i]
+            nx = body[i + 1] if i + 1 < len(body) else None
+            if isinstance(st, ast.Assign) and len(st.targets) == 1 and isinstance(st.targets[0], ast.Name) \
+                    and isinstance(st.value, (ast.Constant, ast.Name, ast.Attribute)) and isinstance(nx, ast.If) and not nx.orelse \
+                    and len(nx.body) == 1 and isinstance(nx.body[0], ast.Assign) and len(nx.body[0].targets) == 1 \
+                    and isinstance(nx.body[0].targets[0], ast.Name) and nx.body[0].targets[0].id == st.targets[0].id \
+                    and st.targets[0].id not in [n.id for n in ast.walk(nx.test) if isinstance(n, ast.Name)] \
+                    and st.targets[0].id not in [n.id for n in ast.walk(nx.body[0].value) if isinstance(n, ast.Name)]:
+                new = ast.Assign(targets=st.targets, value=ast.IfExp(test=nx.test, body=nx.body[0].value, orelse=st.value))
+                out.append(ast.copy_location(new, st))
+                i += 2
+                continue
+            out.append(st)
+            i += 1
+        return out
+
+    def generic_visit(self, node):
+        super().generic_visit(node)
+        for fld in ('body', 'orelse', 'finalbody'):
+            b = getattr(node, fld, None)
+            if isinstance(b, list) and b and isinstance(b[0], ast.stmt):
+                setattr(node, fld, self._fix(b))
+        return node
+
+
+class HoistArg(ast.NodeTransformer):
+    def __init__(self):
+        self.k = 0
+
+    def _fix(self, body):
+        out = []
+        for st in body:
+            call = st.value if isinstance(st, (ast.Expr, ast.Assign, ast.Return)) and isinstance(getattr(st, 'value', None), ast.Call) else None
+            if call is not None and not any(isinstance(x, (ast.Yield, ast.YieldFrom, ast.Lambda)) for x in ast.walk(call)) \
+                    and isinstance(call.func, (ast.Name, ast.Attribute)) and not any(isinstance(x, ast.Call) for x in ast.walk(call.func)):
+                for j, a in enumerate(call.args):
+                    if isinstance(a, ast.Call) and all(isinstance(b, (ast.Name, ast.Constant)) for b in call.args[:j]) \
+                            and not any(isinstance(x, (ast.Starred,)) for x in call.args):
+                        self.k += 1
+                        t = '_arg%d' % self.k
+                        out.append(ast.copy_location(ast.Assign(targets=[ast.Name(id=t, ctx=ast.Store())], value=a), st))
+                        call.args[j] = ast.Name(id=t, ctx=ast.Load())
+                        break
+                    if not isinstance(a, (ast.Name, ast.Constant)):
+                        break
+            out.append(st)
+        return out
+
+    def generic_visit(self, node):
+        super().generic_visit(node)
+        if isinstance(node, (ast.Lambda,)):
+            return node
+        for fld in ('body', 'orelse', 'finalbody'):
+            b = getattr(node, fld, None)
+            if isinstance(b, list) and b and isinstance(b[0], ast.stmt):
+                setattr(node, fld, self._fix(b))
+        return node
+
+
+class KeyConst(ast.NodeTransformer):
+    def visit_Module(self, node):
+        self.keys = set()
+        self.generic_visit(node)
+        defs = [ast.Assign(targets=[ast.Name(id='_K_' + k, ctx=ast.Store())], value=ast.Constant(k)) for k in sorted(self.keys)]
+        k = 0
+        while k < len(node.body) and (isinstance(node.body[k], (ast.Import, ast.ImportFrom)) or (
+                isinstance(node.body[k], ast.Expr) and isinstance(node.body[k].value, ast.Constant))):
+            k += 1
+        node.body = node.body[:k] + defs + node.body[k:]
+        return node
+
+    def visit_Subscript(self, node):
+        self.generic_visit(node)
+        if isinstance(node.value, ast.Attribute) and node.value.attr == 'data' and isinstance(node.slice, ast.Constant) \
+                and isinstance(node.slice.value, str) and node.slice.value.isidentifier():
+            self.keys.add(node.slice.value)
+            node.slice = ast.Name(id='_K_' + node.slice.value, ctx=ast.Load())
+        return node
+
+
+class KwCall(ast.NodeTransformer):
+    def visit_Module(self, node):
+        self.sigs = {}
+        counts = {}
+        for st in node.body:
+            if isinstance(st, ast.FunctionDef):
+                counts[st.name] = counts.get(st.name, 0) + 1
+        for st in node.body:
+            if isinstance(st, ast.FunctionDef) and counts[st.name] == 1 and not st.args.vararg and not st.args.posonlyargs \
+                    and not st.decorator_list:
+                self.sigs[st.name] = [a.arg for a in st.args.args]
+        self.scopes = []
+        self.generic_visit(node)
+        return node
+
+    def visit_FunctionDef(self, node):
+        loc = set(a.arg for a in node.args.args)
+        for n in ast.walk(node):
+            if isinstance(n, ast.Name) and isinstance(n.ctx, ast.Store):
+                loc.add(n.id)
+        self.scopes.append(loc)
+        self.generic_visit(node)
+        self.scopes.pop()
+        return node
+
+    def visit_Call(self, node):
+        self.generic_visit(node)
+        if isinstance(node.func, ast.Name) and node.func.id in self.sigs and not any(node.func.id in sc for sc in self.scopes) \
+                and not any(isinstance(a, ast.Starred) for a in node.args) and len(node.args) <= len(self.sigs[node.func.id]) \
+                and len(node.args) >= 2:
+            params = self.sigs[node.func.id]
+            used = set(k.arg for k in node.keywords if k.arg)
+            if not (used & set(params[:len(node.args)])):
+                # keep the first argument positional, the rest by name (in the same order)
+                kws = [ast.keyword(arg=params[i], value=a) for i, a in enumerate(node.args) if i >= 1]
+                node.keywords = kws + node.keywords
+                node.args = node.args[:1]
+        return node
+
+
+class MergeIf(ast.NodeTransformer):
+    def visit_If(self, node):
+        self.generic_visit(node)
+        if not node.orelse and len(node.body) == 1 and isinstance(node.body[0], ast.If) and not node.body[0].orelse:
+            inner = node.body[0]
+            return ast.copy_location(ast.If(test=ast.BoolOp(op=ast.And(), values=[node.test, inner.test]), body=inner.body, orelse=[]), node)
+        return node
+
+
+class SplitAnd(ast.NodeTransformer):
+    def visit_If(self, node):
+        self.generic_visit(node)
+        if not node.orelse and isinstance(node.test, ast.BoolOp) and isinstance(node.test.op, ast.And):
+            vals = node.test.values
+            inner = node.body
+            for v in reversed(vals[1:]):
+                inner = [ast.copy_location(ast.If(test=v, body=inner, orelse=[]), node)]
+            return ast.copy_location(ast.If(test=vals[0], body=inner, orelse=[]), node)
+        return node
+
+
+class WhileTrue(ast.NodeTransformer):
+    def visit_While(self, node):
+        self.generic_visit(node)
+        if node.orelse or (isinstance(node.test, ast.Constant) and node.test.value is True):
+            return node
+        t = node.test
+        neg = t.operand if isinstance(t, ast.UnaryOp) and isinstance(t.op, ast.Not) else ast.UnaryOp(op=ast.Not(), operand=t)
+        # `continue` in the body would skip nothing that matters (the test is at the top), so the rewrite is exact
+        guard = ast.copy_location(ast.If(test=neg, body=[ast.Break()], orelse=[]), node)
+        return ast.copy_location(ast.While(test=ast.Constant(True), body=[guard] + node.body, orelse=[]), node)
+
+
+class DotFormat(ast.NodeTransformer):
+    def visit_BinOp(self, node):
+        self.generic_visit(node)
+        if not (isinstance(node.op, ast.Mod) and isinstance(node.left, ast.Constant) and isinstance(node.left.value, str)):
+            return node
+        import re
+        fmt = node.left.value
+        if re.search(r'%[^s%]', fmt) or '{' in fmt or '}' in fmt or '%s' not in fmt:
+            return node
+        args = list(node.right.elts) if isinstance(node.right, ast.Tuple) else [node.right]
+        if fmt.replace('%%', '').count('%s') != len(args) or any(isinstance(a, ast.Dict) for a in args):
+            return node
+        new = fmt.replace('%%', '\0').replace('%s', '{}').replace('\0', '%')
+        return ast.copy_location(ast.Call(func=ast.Attribute(value=ast.Constant(new), attr='format', ctx=ast.Load()),
+                                          args=args, keywords=[]), node)
+
+
+class ListCopy(ast.NodeTransformer):
+    def visit_For(self, node):
+        self.generic_visit(node)
+        if isinstance(node.iter, (ast.Name, ast.Attribute)) or (isinstance(node.iter, ast.Call) and not (
+                isinstance(node.iter.func, ast.Name) and node.iter.func.id in ('list', 'range', 'enumerate', 'zip', 'iter', 'reversed'))):
+            # a generator is consumed the same way; lazily produced items are produced up front - fine for lists / tuples / dicts
+            if isinstance(node.iter, ast.Call) and isinstance(node.iter.func, (ast.Name, ast.Attribute)) and (
+                    getattr(node.iter.func, 'id', getattr(node.iter.func, 'attr', '')) in (
+                        'preorder', 'postorder', 'dominance', 'bracket_lexer', 'brackets', 'export', 'tigerxml', 'discobrackets')
+                    or 'getattr' in ast.unparse(node.iter.func)):
+                return node
+            node.iter = ast.Call(func=ast.Name(id='list', ctx=ast.Load()), args=[node.iter], keywords=[])
+        return node
+
+
+REWRITES = {'alpha': Alpha, 'flip': Flip, 'notin': NotIn, 'noop': Noop, 'docs': Docs, 'unparse': None,
+            'modalias': ModAlias, 'fromimp': FromImp, 'swapif': SwapIf, 'lenzero': LenZero, 'fstring': FString,
+            'uncomp': UnComp, 'elseret': ElseRet, 'ternary': Ternary, 'hoistarg': HoistArg, 'keyconst': KeyConst,
+            'kwcall': KwCall, 'mergeif': MergeIf, 'splitand': SplitAnd, 'whiletrue': WhileTrue, 'dotformat': DotFormat,
+            'listcopy': ListCopy}
 
 
 def apply(name, src):
-    tree = ast.parse(src)
-    T = REWRITES[name]
-    if T is not None:
-        tree = T().visit(tree)
-    ast.fix_missing_locations(tree)
-    return ast.unparse(tree) + '\n'
+    # `a+b+c` applies the rewrites one after the other
+    for one in name.split('+'):
+        tree = ast.parse(src)
+        T = REWRITES[one]
+        if T is not None:
+            tree = T().visit(tree)
+        ast.fix_missing_locations(tree)
+        src = ast.unparse(tree) + '\n'
+    return src
 
 
 def run_one(name):
@@ -196,11 +604,17 @@ def run_one(name):
 
 def main():
     names = sys.argv[1:] or sorted(REWRITES)
+    if names and names[0] == '--combos':
+        # `--combos K [seed]`: K random sequences of six different rewrites each
+        import random
+        k = int(names[1]) if len(names) > 1 else 8
+        rnd = random.Random(int(names[2]) if len(names) > 2 else 1)
+        names = ['+'.join(rnd.sample(sorted(REWRITES), 6)) for _ in range(k)]
     with Pool(min(8, len(names))) as pool:
         results = pool.map(run_one, names)
     fragile = 0
     for name, res in results:
-        print('%-8s %s' % (name, 'silent' if not res else 'FRAGILE: ' + ' '.join(sorted(res))))
+        print('%-8s %s' % (name if len(name) < 40 else name, 'silent' if not res else 'FRAGILE: ' + ' '.join(sorted(res))))
         if res:
             fragile += 1
             if os.environ.get('V'):
